@@ -116,6 +116,11 @@ def main():
         probes += [["quantify", spec], ["unprefixed", spec], ["expr", spec]]
     for text in ("m s", "m N", "h a", "m in.", "k g", "m m", "d a", "c d", "P a", "m Pa", "G y", "m s⁻¹", "kg m s⁻²", "m K", "n mi.", "f t", "T R"):
         probes += [["parse", text], ["qparse", text]]
+    # every registered symbol as the unit text of a quantity (constructor and JSON document) and of Unit.parse: what a symbol means does
+    # not depend on which quantities were written out earlier (prefix + symbol spellings that coincide with it: cd, ha, min, ...)
+    syms_ = impl("export_worker.py", {})
+    for sym in sorted(syms_.get("unit_by_symbol", {})):
+        probes += [["qparse", sym], ["qjson", sym], ["parse", sym]]
     late = [["dam", "time"], ["ms", "speed"], ["mK", "length"], ["Gs", "mass"], ["kat", "area"]]
     for text, _d in late:
         probes += [["parse", text], ["qparse", text], ["parse", text + "²"], ["parse", "m " + text]]
